@@ -145,7 +145,7 @@ def builder_for(ctx, nrandom):
                     out.append((b, [n]))
             return out
 
-        case = C1.build_case_model(m, {"c=%d" % c}, rnd, 0, 0, buffer_plan=plan, aligned_fn=lambda r: r.choice([0, 0, 2, 4, 8]))
+        case = C1.build_case_model(m, {"c=%d" % c}, rnd, 0, 0, buffer_plan=plan, aligned_fn=lambda r: r.choice([0, 0, "char", 2, 4, 8]))
         case["configs"] = configs
         case["per_observation"] = True
         case["cid"] = case_seed
